@@ -799,7 +799,7 @@ def oracle_kernel(ops, impl):
 # scale stream: ref_search_distance3 over element sizes 1e-6 .. 1e8 and needle aspect ratios up to 1e4
 # ---------------------------------------------------------------------------
 SITE_D3 = 'ref_search_distance3:unnormalised-normal-projection'
-D3_REPAIRED = False  # flip together with `tri3FootRepo` in lean/Refine/Model/Search.lean when the repair lands
+D3_REPAIRED = True  # flip together with `tri3FootRepo` in lean/Refine/Model/Search.lean when the repair lands
 
 
 def py_distance2(p0, p1, x):
